@@ -1,0 +1,112 @@
+//! Verification hooks for the version/token subsystem.
+//!
+//! Compiled only with `--cfg zipora_verif`; normal builds do not contain this module.
+//!
+//! * `sched_point(id)` is called immediately before every shared-memory access of
+//!   `VersionManager::{acquire_*_token, release_*_token, try_advance_min_version}`
+//!   (atomic loads/RMWs/stores, `token_chain_mutex.lock()` and the release of its guard).
+//!   A test harness may install a callback that parks the calling thread, which turns
+//!   real threads into an explicitly scheduled interleaving.
+//! * a registry of dropped managers lets a token release that would touch a dropped
+//!   `VersionManager` be observed (and skipped) instead of executing undefined behaviour.
+
+use std::collections::HashSet;
+use std::sync::atomic::{AtomicBool, AtomicU64, Ordering};
+use std::sync::{Arc, Mutex, RwLock};
+
+/// Schedule point identifiers ("about to perform ...").
+pub mod pt {
+    /// acquire_reader_token: about to lock `token_chain_mutex`
+    pub const R_LOCK: u32 = 1;
+    /// acquire_reader_token: about to load `min_version`
+    pub const R_LOAD_MIN: u32 = 2;
+    /// acquire_reader_token: about to `fetch_add` `current_version`
+    pub const R_FADD_CUR: u32 = 3;
+    /// acquire_reader_token: about to release the mutex guard
+    pub const R_UNLOCK: u32 = 4;
+    /// acquire_reader_token: about to increment `active_readers`
+    pub const R_INC: u32 = 5;
+    /// acquire_writer_token: about to load `active_writers` (admission check)
+    pub const W_LOAD_AW: u32 = 10;
+    /// acquire_writer_token: about to lock `token_chain_mutex`
+    pub const W_LOCK: u32 = 11;
+    /// acquire_writer_token: about to load `min_version`
+    pub const W_LOAD_MIN: u32 = 12;
+    /// acquire_writer_token: about to `fetch_add` `current_version`
+    pub const W_FADD_CUR: u32 = 13;
+    /// acquire_writer_token: about to release the mutex guard
+    pub const W_UNLOCK: u32 = 14;
+    /// acquire_writer_token: about to increment `active_writers`
+    pub const W_INC: u32 = 15;
+    /// release_reader_token: about to decrement `active_readers`
+    pub const DEC_AR: u32 = 20;
+    /// release_writer_token: about to decrement `active_writers`
+    pub const DEC_AW: u32 = 21;
+    /// try_advance_min_version: about to load `active_readers`
+    pub const TA_LOAD_AR: u32 = 30;
+    /// try_advance_min_version: about to load `active_writers`
+    pub const TA_LOAD_AW: u32 = 31;
+    /// try_advance_min_version: about to load `current_version`
+    pub const TA_LOAD_CUR: u32 = 32;
+    /// try_advance_min_version: about to store `min_version`
+    pub const TA_STORE_MIN: u32 = 33;
+    /// try_advance_min_version: about to lock `token_chain_mutex`
+    pub const TA_LOCK: u32 = 34;
+    /// try_advance_min_version: about to release the mutex guard
+    pub const TA_UNLOCK: u32 = 35;
+}
+
+/// Callback type of the schedule hook.
+pub type SchedHook = Arc<dyn Fn(u32) + Send + Sync>;
+
+static ENABLED: AtomicBool = AtomicBool::new(false);
+static HOOK: RwLock<Option<SchedHook>> = RwLock::new(None);
+
+/// Installs (or removes) the process-global schedule hook.
+pub fn set_sched_hook(h: Option<SchedHook>) {
+    let on = h.is_some();
+    *HOOK.write().unwrap_or_else(|e| e.into_inner()) = h;
+    ENABLED.store(on, Ordering::SeqCst);
+}
+
+/// A schedule point: calls the installed hook, if any.
+#[inline]
+pub fn sched_point(id: u32) {
+    if ENABLED.load(Ordering::Relaxed) {
+        let h = HOOK.read().unwrap_or_else(|e| e.into_inner()).clone();
+        if let Some(h) = h {
+            h(id);
+        }
+    }
+}
+
+static NEXT_ID: AtomicU64 = AtomicU64::new(1);
+static DROPPED: Mutex<Option<HashSet<u64>>> = Mutex::new(None);
+static DANGLING_RELEASES: AtomicU64 = AtomicU64::new(0);
+
+/// A fresh identity for a manager's state.
+pub fn new_manager_id() -> u64 {
+    NEXT_ID.fetch_add(1, Ordering::Relaxed)
+}
+
+/// Records that the manager state with this identity has been destroyed.
+pub fn manager_dropped(id: u64) {
+    let mut g = DROPPED.lock().unwrap_or_else(|e| e.into_inner());
+    g.get_or_insert_with(HashSet::new).insert(id);
+}
+
+/// Called by a token release before it touches its manager.  Returns `false` (and counts
+/// the event) when the manager state has already been destroyed; the release is then skipped.
+pub fn release_target_alive(id: u64) -> bool {
+    let g = DROPPED.lock().unwrap_or_else(|e| e.into_inner());
+    let dead = g.as_ref().map_or(false, |s| s.contains(&id));
+    if dead {
+        DANGLING_RELEASES.fetch_add(1, Ordering::SeqCst);
+    }
+    !dead
+}
+
+/// Number of token releases so far that were aimed at a destroyed manager.
+pub fn dangling_releases() -> u64 {
+    DANGLING_RELEASES.load(Ordering::SeqCst)
+}
